@@ -9,6 +9,9 @@ DBG_CMDS = ['ls -l /', 'ls -l /many', 'ls -l /d1/d2/d3', 'stat /big', 'stat /fra
 TOOLS = ['e2fsck -fn', 'e2fsck -fn', 'e2fsck -n', 'e2fsck -p', 'e2fsck -fy', 'e2fsck -fy', 'e2fsck -fyD', 'e2fsck -fy -E bmap2extent', 'debugfs', 'debugfs', 'debugfs -c', 'dumpe2fs', 'dumpe2fs -x', 'dumpe2fs -h', 'dumpe2fs -b', 'dumpe2fs -g', 'tune2fs -l', 'resize2fs -P',
          'e2image -r', 'e2image -Q', 'e2image -ra', 'e2image meta', 'e2freefrag', 'e2undo mutated', 'e2image -r mutated-qcow2', 'e2fsck -fn -b', 'e2fsck -fy journal-noise', 'debugfs jr', 'e2fsck -fn -E journal_only?']
 TOOLS = [t for t in TOOLS if not t.endswith('?')]
+# journals laid out by the independent JBD2 writer (descriptor/revoke/commit blocks of every format) whose header fields are then set to boundary values
+TOOLS += ['e2fsck -fy journal-struct', 'debugfs logdump journal-struct', 'debugfs logdump journal-struct', 'debugfs jr journal-struct']
+JFIELD_VALUES = [0, 1, 2, 5, 0xfffffff0, 0x7fffffff, 0xffffffff, 0x80000000]
 E2FSCK_OK = 1 | 2 | 4 | 8 | 16 | 32 | 128
 UB_KINDS = re.compile(r'runtime error: (index -?\d+ out of bounds|.*null pointer|member access within null|.*address .* with insufficient space|.*object-size|execution reached an unreachable|variable length array)')
 RULE = ('(i) Hypothesis draws (configuration out of %d, population recipe, 1-6 structure-aware mutations with or without checksum fix-up incl. unstructured byte noise and whole-block copies, tool invocation out of %d forms incl. %d read-only debugfs commands; '
@@ -18,8 +21,13 @@ RULE = ('(i) Hypothesis draws (configuration out of %d, population recipe, 1-6 s
 CFG_NAMES = [c['name'] for c in fsgen.CONFIGS]
 noise = st.tuples(st.integers(0, 1 << 30), st.integers(1, 64), st.integers(0, 255))
 
+# size/offset/count-directed mutations: one or two length, offset or count fields of an xattr entry / directory entry / extent / htree node / inode / descriptor set to a wrapping or boundary value,
+# checksum fixed up so that the consumer behind the checksum test sees it
+_DCLS = [corrupt.CLASSES.index(c) for c in ('xattr', 'xattr', 'dirent', 'extent', 'dx', 'inode', 'gd', 'sb', 'special')]
+_DKINDS = [corrupt.KINDS.index(k) for k in ('wrap', 'wrap', 'ones', 'out_of_range', 'small', 'zero', 'dec', 'inc')]
+directed = st.tuples(st.sampled_from(_DCLS), st.integers(0, 500), st.integers(0, 200), st.sampled_from(_DKINDS), st.integers(0, 1 << 20), st.just(True))
 def strategy(env):
-    return st.fixed_dictionaries(dict(cfg=st.sampled_from(CFG_NAMES), recipe=st.integers(0, len(hyp.RECIPES) - 1), muts=st.lists(hyp.mutation, min_size=1, max_size=6), tool=st.integers(0, len(TOOLS) - 1), sub=st.integers(0, 10000), aux=st.lists(noise, min_size=1, max_size=6)))
+    return st.fixed_dictionaries(dict(cfg=st.sampled_from(CFG_NAMES), recipe=st.integers(0, len(hyp.RECIPES) - 1), muts=st.one_of(st.lists(hyp.mutation, min_size=1, max_size=6), st.lists(directed, min_size=1, max_size=2)), tool=st.integers(0, len(TOOLS) - 1), sub=st.integers(0, 10000), aux=st.lists(noise, min_size=1, max_size=6)))
 
 def envinit(widx):
     env = hyp.img_env(widx, variants=('asan',)); env['aux'] = {}
@@ -42,6 +50,36 @@ def aux_file(env, kind, cfg_name, recipe, tpl):
     env['aux'][key] = res
     return res
 
+def structured_journal(img, bs, case, classes):
+    """writes a generated journal (vlib/jbd2.py) into the internal journal and sets header fields of its blocks to boundary values; deterministic in the case"""
+    from vlib import jbd2
+    rnd = random.Random(case['sub'] * 7919 + len(case['aux']))
+    try:
+        fs_, jmap = jbd2.journal_map(img)
+        if not jmap: return False
+        pool = list(range(fs_.first_data + 60, fs_.first_data + 260))
+        trans = [dict(blocks=[(rnd.randrange(200), rnd.random() < 0.2) for _ in range(rnd.randrange(1, 12))], rev_before=[rnd.randrange(200) for _ in range(rnd.randrange(0, 4))], rev_after=[rnd.randrange(200) for _ in range(rnd.randrange(0, 4))],
+                      split=rnd.choice([0, 0, 1, 3]), same_uuid=rnd.random() < 0.5) for _ in range(rnd.randrange(1, 4))]
+        spec = dict(fmt64=rnd.random() < 0.5, csum=rnd.choice([0, 1, 2, 3]), seq0=rnd.choice([1, 77, 0xfffffffe]), start_mode=rnd.randrange(2), start=rnd.randrange(5000), seed=case['sub'], trans=trans, damage=0, damage_at=0)
+        spec['async'] = rnd.random() < 0.3
+        jbd2.write_journal(img, spec, pool)
+    except Exception: return False
+    # field-level damage of the log blocks: block type, sequence, r_count / first tag word, following words
+    with open(img, 'r+b') as f:
+        cands = []
+        for l in range(len(jmap)):
+            f.seek(jmap[l] * bs); h = f.read(16)
+            if h[:4] == jbd2.MAGICB and l > 0: cands.append((l, struct.unpack_from('>I', h, 4)[0]))
+            if len(cands) >= 40: break
+        for l, bt in cands:
+            if rnd.random() < 0.35:
+                off = rnd.choice([12, 12, 4, 8, 16, 20, 24]) if bt == 5 else rnd.choice([4, 8, 12, 16, 20, 24, 28])
+                v = rnd.choice(JFIELD_VALUES + [bs, bs + 1, bs + 64, bs - 4, 16, 15])
+                f.seek(jmap[l] * bs + off); f.write(struct.pack('>I', v)); classes.append('jfield:type%d@%d' % (bt, off))
+        if rnd.random() < 0.3:      # journal superblock fields: s_first, s_maxlen, s_start, s_sequence, feature words
+            off = rnd.choice([0x0c, 0x10, 0x14, 0x18, 0x1c, 0x24, 0x28, 0x2c, 0x40, 0x44]); f.seek(jmap[0] * bs + off); f.write(struct.pack('>I', rnd.choice(JFIELD_VALUES + [bs, len(jmap), len(jmap) + 1]))); classes.append('jfield:jsb@%#x' % off)
+    return True
+
 def body(case, env):
     name = TOOLS[case['tool']]; classes = ['tool:' + name]; fp = core.stable_hash(case)
     tpl = hyp.template(env, case['cfg'], case['recipe'])
@@ -61,6 +99,9 @@ def body(case, env):
                 o = lo + pos % max(1, hi - lo); f.seek(o); f.write(bytes([(val + k * 37) & 0xff for k in range(min(ln, size - o))]))
     if name.startswith('e2fsck'):
         opts = name.split()[1:]
+        if 'journal-struct' in opts:
+            opts.remove('journal-struct')
+            if not structured_journal(img, bs, case, classes): classes.append('journal-struct:not-applicable')
         if 'journal-noise' in opts:
             opts.remove('journal-noise')
             try:
@@ -75,7 +116,13 @@ def body(case, env):
             opts += [str(bpg + (1 if bs == 1024 else 0)), '-B', str(bs)]
         argv = [t.e2fsck] + opts + [img]; ok = None
     elif name.startswith('debugfs'):
-        if name == 'debugfs jr':
+        if name.endswith('journal-struct'):
+            if not structured_journal(img, bs, case, classes): classes.append('journal-struct:not-applicable')
+            if ' jr ' in name: argv = [t.debugfs, '-w', '-R', 'jr', img]
+            else:
+                stdin = '\n'.join([['logdump -a', 'logdump', 'logdump -O', 'logdump -S', 'logdump -a -O', 'logdump -b %d -c' % (100 + sub % 400), 'logdump -i <2>'][(sub + k * 3) % 7] for k in range(2)]) + '\n'
+                argv = [t.debugfs, '-f', '-', img]
+        elif name == 'debugfs jr':
             try:
                 from vlib import jbd2
                 fs_, jmap = jbd2.journal_map(img)
